@@ -241,3 +241,13 @@ _ALLS_EINSUM = '    norm_a = (2 * exps_a / np.pi) ** (3 / 4)\n    norm_b = (2 * 
 OK("alls-einsum-refactor", TWO, _ALLS_OLD, _ALLS_EINSUM, "C04,C13,C11,C12,C16,C19")
 M("alls-einsum-swapped", TWO, _ALLS_OLD, _ALLS_EINSUM.replace("->ijkl", "->ikjl"), "C04,C13")
 M("alls-einsum-wrong-coeffs", TWO, _ALLS_OLD, _ALLS_EINSUM.replace("coeffs_a, coeffs_b, coeffs_c", "coeffs_a, coeffs_c, coeffs_b"), "C04")
+DEN = "gbasis/evals/density.py"
+_THR_OLD = "    min_output = np.min(output)\n    if min_output < 0.0 and abs(min_output) > threshold:\n        raise ValueError(f\"Found negative density <= {-threshold}, got {min_output}.\")\n    return output.clip(min=0.0)\n"
+OK("thr-any-form", DEN, _THR_OLD, "    min_output = np.min(output)\n    if np.any(output < -threshold):\n        raise ValueError(f\"Found negative density <= {-threshold}, got {min_output}.\")\n    return output.clip(min=0.0)\n", "C06")
+OK("thr-subset-max", DEN, _THR_OLD, "    negative = output[output < 0.0]\n    if negative.size > 0 and np.max(np.abs(negative)) > threshold:\n        raise ValueError(f\"Found negative density <= {-threshold}.\")\n    return output.clip(min=0.0)\n", "C06")
+M("thr-subset-min", DEN, _THR_OLD, "    negative = output[output < 0.0]\n    if negative.size > 0 and np.min(np.abs(negative)) > threshold:\n        raise ValueError(f\"Found negative density <= {-threshold}.\")\n    return output.clip(min=0.0)\n", "C06")
+M("thr-max-instead", DEN, _THR_OLD, "    min_output = np.max(output)\n    if min_output < 0.0 and abs(min_output) > threshold:\n        raise ValueError(f\"Found negative density <= {-threshold}, got {min_output}.\")\n    return output.clip(min=0.0)\n", "C06")
+M("thr-all-form", DEN, _THR_OLD, "    min_output = np.min(output)\n    if np.all(output < -threshold):\n        raise ValueError(f\"Found negative density <= {-threshold}, got {min_output}.\")\n    return output.clip(min=0.0)\n", "C06")
+OK("rdm-npdot", DEN, "    density = one_density_matrix.dot(deriv_orb_eval_two)\n", "    density = np.dot(one_density_matrix, deriv_orb_eval_two)\n", "C06,C15,C19")
+M("rdm-inplace-alias", DEN, "    density = one_density_matrix.dot(deriv_orb_eval_two)\n    density *= deriv_orb_eval_one\n",
+  "    density = one_density_matrix.dot(deriv_orb_eval_two)\n    deriv_orb_eval_two *= 2\n    density *= deriv_orb_eval_one\n    density *= 0.5\n", "C06")
